@@ -232,11 +232,13 @@ theorem mem_expandFrom {rc : RCfg} {t : Nat} {i : Item} {j : Nat} {qs : List Req
       have : j' - j = (j' - (j + 1)) + 1 := by omega
       rw [this, List.getElem?_cons_succ]; exact hget
 
-/-- every slot a compiled program mentions is a `symbols` slot of a key of the table, a file-cache
-    slot of such a key, or the private slot of a `get_file_path` request -/
+/-- every slot a compiled program mentions is the `symbols` slot of the key of a module some
+    fill/walk request names, a file-cache slot of such a key, or the private slot of a
+    `get_file_path` request -/
 theorem slot_forms {rc : RCfg} (hwf : rc.WF) {s : Nat}
     (h : s ∈ allKeys (compile (toICfg rc))) :
-    (∃ p k, p < rc.P ∧ k < rc.M ∧ s = symSlot rc p k) ∨
+    (∃ p t q, p < rc.P ∧ q ∈ rc.prog t ∧ (∀ fk, q.kind ≠ .file fk) ∧
+      s = symSlot rc p (rc.key q.mod)) ∨
     (∃ p k fk, p < rc.P ∧ k < rc.M ∧ fk < 3 ∧ s = fileSlot rc p k fk) ∨
     (∃ t j p fk m, t < rc.T ∧ p < rc.P ∧ (rc.prog t)[j]? = some ⟨.file fk, m⟩ ∧
       s = privSlot rc t j p) := by
@@ -249,8 +251,8 @@ theorem slot_forms {rc : RCfg} (hwf : rc.WF) {s : Nat}
   simp only [expandReq, List.mem_map, List.mem_range] at hij
   obtain ⟨p, hp, rfl⟩ := hij
   cases hkind : q.kind with
-  | fill => simp only [hkind]; exact Or.inl ⟨p, _, hp, hk, rfl⟩
-  | walk => simp only [hkind]; exact Or.inl ⟨p, _, hp, hk, rfl⟩
+  | fill => simp only [hkind]; exact Or.inl ⟨p, t, q, hp, hq, by simp [hkind], rfl⟩
+  | walk => simp only [hkind]; exact Or.inl ⟨p, t, q, hp, hq, by simp [hkind], rfl⟩
   | file fk =>
     simp only [hkind]
     by_cases hc : (rc.prov p).cached = true
@@ -262,6 +264,90 @@ theorem slot_forms {rc : RCfg} (hwf : rc.WF) {s : Nat}
       rw [hget]
       cases q with
       | mk kind m => simp only at hkind; subst hkind; rfl
+
+/-- a `symbols` slot of provider `p` that a compiled program mentions -/
+theorem sym_slot_form {rc : RCfg} (hwf : rc.WF) {s p : Nat}
+    (h : s ∈ allKeys (compile (toICfg rc))) (hs : isSym rc p s = true) :
+    ∃ t q, q ∈ rc.prog t ∧ s = symSlot rc p (rc.key q.mod) := by
+  rcases slot_forms hwf h with ⟨p', t, q, _, hq, _, rfl⟩ | ⟨p', k, fk, _, _, _, rfl⟩ |
+    ⟨t, j, p', fk, m, _, _, _, rfl⟩
+  · rw [isSym_symSlot rc (key_lt hwf hq)] at hs
+    simp only [decide_eq_true_eq] at hs
+    exact ⟨t, q, hq, by rw [hs]⟩
+  · rw [isSym_fileSlot] at hs; cases hs
+  · rw [isSym_privSlot] at hs; cases hs
+
+/-- every supplier call / return in the log concerns a slot some compiled program mentions -/
+theorem ret_mem_allKeys {cfg : Cfg} {s : State} (hA : InvA cfg s) (hC : CountInv s) {k : Nat}
+    (hk : Event.ret k ∈ s.log) : k ∈ allKeys cfg := by
+  apply nonEmpty_mem_allKeys hA
+  have hc : 0 < retCount k s.log := List.count_pos_iff.mpr hk
+  have := (hC k).2
+  cases hs : s.slot k with
+  | empty => simp [hs, Slot.isDone] at this; omega
+  | held u => simp [hs, Slot.isDone] at this; omega
+  | done r => simp [Slot.nonEmpty]
+
+theorem call_mem_allKeys {cfg : Cfg} {s : State} (hA : InvA cfg s) (hC : CountInv s) {k : Nat}
+    (hk : Event.call k ∈ s.log) : k ∈ allKeys cfg := by
+  apply nonEmpty_mem_allKeys hA
+  have hc : 0 < callCount k s.log := List.count_pos_iff.mpr hk
+  have := (hC k).1
+  by_cases hne : (s.slot k).nonEmpty = true
+  · exact hne
+  · simp [hne] at this; omega
+
+/-! ## the statistics map -/
+
+/-- distinct module keys of the table have distinct code-file leaf names (the hypothesis under
+    which the leaf-name-keyed statistics tell the modules apart; finding F16 is its failure) -/
+def RCfg.LeafDistinct (rc : RCfg) : Prop :=
+  ∀ i j, i < rc.M → j < rc.M → leafOfKey rc (rc.key i) = leafOfKey rc (rc.key j) → rc.key i = rc.key j
+
+theorem mem_statWrites {rc : RCfg} {p : Nat} {log : List Event} {l : Option Nat} {r : Res} :
+    (l, r) ∈ statWrites rc p log ↔
+      ∃ s, Event.ret s ∈ log ∧ isSym rc p s = true ∧ l = leafOfKey rc (s / 4 % rc.M) ∧
+        r = (slotSup rc s).res := by
+  simp only [statWrites, List.mem_filterMap]
+  constructor
+  · rintro ⟨e, he, h⟩
+    cases e with
+    | call _ => simp at h
+    | seen _ _ _ => simp at h
+    | ret s =>
+      simp only at h
+      split at h
+      · rename_i hs
+        simp only [Option.some.injEq, Prod.mk.injEq] at h
+        exact ⟨s, he, hs, h.1.symm, h.2.symm⟩
+      · cases h
+  · rintro ⟨s, he, hs, rfl, rfl⟩
+    exact ⟨_, he, by simp [hs]⟩
+
+theorem statGet_some_mem {ws : List (Option Nat × Res)} {l : Option Nat} {r : Res}
+    (h : statGet ws l = some r) : (l, r) ∈ ws := by
+  simp only [statGet, Option.map_eq_some_iff] at h
+  obtain ⟨e, he, rfl⟩ := h
+  have hm := List.mem_of_find?_eq_some he
+  have hp := List.find?_some he
+  simp only [beq_iff_eq] at hp
+  rw [← hp]
+  exact List.mem_reverse.mp hm
+
+theorem statGet_of_unique {ws : List (Option Nat × Res)} {l : Option Nat} {r : Res}
+    (hex : ∃ r0, (l, r0) ∈ ws) (huniq : ∀ r', (l, r') ∈ ws → r' = r) : statGet ws l = some r := by
+  obtain ⟨r0, hr0⟩ := hex
+  have hsome : (ws.reverse.find? fun e => e.1 == l).isSome = true := by
+    rw [List.find?_isSome]
+    exact ⟨(l, r0), List.mem_reverse.mpr hr0, by simp⟩
+  obtain ⟨e, he⟩ := Option.isSome_iff_exists.mp hsome
+  have hm := List.mem_reverse.mp (List.mem_of_find?_eq_some he)
+  have hp := List.find?_some he
+  simp only [beq_iff_eq] at hp
+  have : e = (l, e.2) := by rw [← hp]
+  rw [this] at hm
+  simp only [statGet, he, Option.map_some, Option.some.injEq]
+  exact huniq _ hm
 
 /-! ## one request: items, observations, combined answer -/
 
